@@ -140,7 +140,7 @@ func (h *c19Hammer) runRound(child string, r int, f func()) {
 	go func() {
 		defer func() {
 			if x := recover(); x != nil {
-				h.fail(r, "c19/panic", child+": harness goroutine of the round panicked: "+firstLine(fmt.Sprint(x)))
+				h.fail(r, "c19/panic", child+": harness goroutine of the round panicked: "+c19FirstLine(fmt.Sprint(x)))
 			}
 			done <- true
 		}()
@@ -460,7 +460,7 @@ func (h *c19Hammer) round(round int) {
 			defer wg.Done()
 			defer func() {
 				if x := recover(); x != nil {
-					h.fail(round, "c19/panic", what+" panicked: "+firstLine(fmt.Sprint(x)))
+					h.fail(round, "c19/panic", what+" panicked: "+c19FirstLine(fmt.Sprint(x)))
 				}
 			}()
 			f()
@@ -551,7 +551,7 @@ func (h *c19Hammer) round(round int) {
 								pruned++
 								return
 							}
-							h.fail(round, "c19/panic", fmt.Sprintf("reader %d panicked: %s", ri, firstLine(msg)))
+							h.fail(round, "c19/panic", fmt.Sprintf("reader %d panicked: %s", ri, c19FirstLine(msg)))
 						}
 					}()
 					reads++
@@ -818,7 +818,7 @@ func firstBytes(b []byte, n int) []byte {
 	return b[:n]
 }
 
-func firstLine(s string) string {
+func c19FirstLine(s string) string {
 	if i := strings.IndexByte(s, '\n'); i >= 0 {
 		s = s[:i]
 	}
